@@ -192,6 +192,13 @@ pub struct Node {
 
 /// Count of `clear_buf.done` emissions in this process (one execution at a time per process).
 pub static CLEAR_DONE: AtomicU64 = AtomicU64::new(0);
+/// The same count per tokio runtime (engines that run several executions in parallel threads).
+static CLEAR_DONE_RT: std::sync::Mutex<Vec<(tokio::runtime::Id, u64)>> = std::sync::Mutex::new(Vec::new());
+
+fn clear_done_here() -> u64 {
+    let id = tokio::runtime::Handle::current().id();
+    CLEAR_DONE_RT.lock().unwrap().iter().find(|e| e.0 == id).map(|e| e.1).unwrap_or(0)
+}
 /// Other emissions, by name, for engines that want them.
 pub static EMITS: std::sync::Mutex<Vec<(String, String)>> = std::sync::Mutex::new(Vec::new());
 
@@ -199,6 +206,18 @@ pub fn install_emit_handler() {
     klukai_types::verif::set_emit_handler(Some(Arc::new(|name: &str, detail: &str| {
         if name == "clear_buf.done" {
             CLEAR_DONE.fetch_add(1, Ordering::SeqCst);
+            if let Ok(h) = tokio::runtime::Handle::try_current() {
+                let id = h.id();
+                let mut g = CLEAR_DONE_RT.lock().unwrap();
+                if let Some(e) = g.iter_mut().find(|e| e.0 == id) {
+                    e.1 += 1;
+                } else {
+                    if g.len() > 256 {
+                        g.remove(0);
+                    }
+                    g.push((id, 1));
+                }
+            }
         } else {
             EMITS.lock().unwrap().push((name.to_string(), detail.to_string()));
         }
@@ -221,7 +240,7 @@ pub fn rebaseline() {
     if let Some(e) = g.iter_mut().find(|e| e.0 == id) {
         e.1 = n;
     } else {
-        if g.len() > 64 {
+        if g.len() > 256 {
             g.remove(0);
         }
         g.push((id, n));
@@ -250,6 +269,9 @@ pub async fn rebaseline_settled() {
     if let Some(e) = g.iter_mut().find(|e| e.0 == id) {
         e.1 = last as u64;
     } else {
+        if g.len() > 256 {
+            g.remove(0);
+        }
         g.push((id, last as u64));
     }
 }
@@ -516,10 +538,10 @@ impl Node {
     /// through the `clear_buf.done` emit hook.
     pub async fn clear_one(&mut self) -> Option<(ActorId, RangeInclusive<CrsqlDbVersion>)> {
         let item = self.rx_clear_buf.try_recv().ok()?;
-        let before = CLEAR_DONE.load(Ordering::SeqCst);
+        let before = clear_done_here();
         self.tx_clear_h.send(item.clone()).await.unwrap();
         let start = Instant::now();
-        while CLEAR_DONE.load(Ordering::SeqCst) == before {
+        while clear_done_here() == before {
             tokio::task::yield_now().await;
             if start.elapsed() > Duration::from_secs(30) {
                 crate::vcore::machinery_error("clear loop did not finish the request");
@@ -691,6 +713,128 @@ pub fn empty(actor: ActorId, versions: RangeInclusive<u64>) -> ChangeV1 {
         },
     }
 }
+
+// ------------------------------------------------------------------------------------------
+// WAL prefixes (crash states) and the faithful restart
+// ------------------------------------------------------------------------------------------
+
+/// Byte offsets in a WAL file right after each commit frame.
+pub fn wal_commit_offsets(wal: &[u8]) -> Vec<usize> {
+    if wal.len() < 32 {
+        return vec![];
+    }
+    let page = u32::from_be_bytes([wal[8], wal[9], wal[10], wal[11]]) as usize;
+    let mut out = vec![];
+    let mut off = 32;
+    while off + 24 + page <= wal.len() {
+        let dbsize = u32::from_be_bytes([wal[off + 4], wal[off + 5], wal[off + 6], wal[off + 7]]);
+        off += 24 + page;
+        if dbsize != 0 {
+            out.push(off);
+        }
+    }
+    out
+}
+
+pub fn wal_frame_len(wal: &[u8]) -> usize {
+    if wal.len() < 32 {
+        return 0;
+    }
+    24 + u32::from_be_bytes([wal[8], wal[9], wal[10], wal[11]]) as usize
+}
+
+/// Crash image: the database file plus the first `cut` bytes of its WAL (no -shm), in `dir`.
+pub fn crash_image(db_path: &Path, wal: &[u8], cut: usize, dir: &Path) -> PathBuf {
+    std::fs::create_dir_all(dir).unwrap();
+    let dst = dir.join(db_path.file_name().unwrap());
+    std::fs::copy(db_path, &dst).unwrap();
+    let mut w = dst.clone().into_os_string();
+    w.push("-wal");
+    std::fs::write(PathBuf::from(w), &wal[..cut.min(wal.len())]).unwrap();
+    dst
+}
+
+pub fn wal_path(db_path: &Path) -> PathBuf {
+    let mut w = db_path.to_path_buf().into_os_string();
+    w.push("-wal");
+    PathBuf::from(w)
+}
+
+/// A node started by the real `start_with_config` (all loops live, loopback sockets), wrapped so
+/// that the observation helpers of `Node` work on it. Its own apply / clear loops run by
+/// themselves; the harness only observes and calls `deliver`.
+pub struct FullNode {
+    rt: Option<tokio::runtime::Runtime>,
+    node: Option<Node>,
+}
+
+impl FullNode {
+    pub fn start(db_path: &Path) -> Result<FullNode, String> {
+        let rt = new_runtime(4);
+        let dbp = db_path.to_path_buf();
+        let node = rt.block_on(async move {
+            let conf: Config = Config::builder()
+                .db_path(dbp.display().to_string())
+                .gossip_addr("127.0.0.1:0".parse().unwrap())
+                .api_addr("127.0.0.1:0".parse().unwrap())
+                .admin_path(dbp.with_extension("admin.sock").display().to_string())
+                .build()
+                .unwrap();
+            let (tripwire, worker, tripwire_tx) = Tripwire::new_simple();
+            tokio::spawn(worker);
+            let (agent, bookie, _transport, _handles) = klukai_agent::agent::start_with_config(conf, tripwire.clone())
+                .await
+                .map_err(|e| format!("start_with_config: {e}"))?;
+            let (_t1, rx_apply) = bounded(1, "x_apply");
+            let (tx_clear_h, rx_clear_buf) = bounded(1, "x_clear");
+            let (_t3, rx_bcast) = bounded(1, "x_bcast");
+            let (_t4, rx_changes) = bounded(1, "x_changes");
+            let (_t5, rx_foca) = bounded(1, "x_foca");
+            let t_s = Instant::now();
+            rebaseline_settled().await;
+            if std::env::var("VH_TIMING").is_ok() {
+                eprintln!("settle {:?} tasks {}", t_s.elapsed(), alive_tasks());
+            }
+            Ok::<_, String>(Node {
+                db_path: dbp.clone(),
+                agent,
+                bookie,
+                rx_bcast,
+                rx_apply,
+                rx_clear_buf,
+                rx_changes,
+                rx_foca,
+                tripwire,
+                tripwire_tx,
+                lock_registry: LockRegistry::default(),
+                tx_clear_h,
+            })
+        })?;
+        Ok(FullNode { rt: Some(rt), node: Some(node) })
+    }
+    pub fn run<R>(&mut self, f: impl AsyncFnOnce(&mut Node) -> R) -> R {
+        let rt = self.rt.as_ref().unwrap();
+        let node = self.node.as_mut().unwrap();
+        rt.block_on(f(node))
+    }
+    pub fn node(&self) -> &Node {
+        self.node.as_ref().unwrap()
+    }
+}
+
+impl Drop for FullNode {
+    fn drop(&mut self) {
+        if let (Some(node), Some(rt)) = (self.node.take(), self.rt.take()) {
+            {
+                let _g = rt.enter();
+                let _ = node.tripwire_tx.try_send(());
+                drop(node);
+            }
+            rt.shutdown_background();
+        }
+    }
+}
+
 
 /// A node with a tokio runtime of its own, driven from a plain thread. Dropping it kills every
 /// task of the node at once (that is what a crash does); `restart` reopens the same files.
